@@ -8,6 +8,14 @@ The simulated network chooses the segmentation of both byte streams (including
 the server's pre-version banner lines and the version line itself) and, in the
 tamper family, alters exactly one byte of one MAC-protected packet.
 
+The identification phase is varied in content as well as in segmentation: banner
+lines may mention the version marker "SSH-" anywhere but at their start (that is
+all RFC 4253 4.2 forbids) or start with a near miss ("SSH_", "ssh-"); both sides
+may use their own version string (software version, comment, 1.99 for the
+server); the delivery that completes the version line may carry the packets that
+follow it; and either side may put cleartext IGNORE/DEBUG messages with line-like
+content behind its KEXINIT (RFC 4253 7.1 allows them during key exchange).
+
 Oracle: without tampering the payloads dispatched to each side's service are
 exactly the payloads the other side sent, in order; with tampering the receiver
 disconnects (after having received at most the claimed packet length) and the
@@ -28,6 +36,10 @@ from twisted.python import randbytes
 
 from detsim import net
 
+
+def NS(t):
+    return len(t).to_bytes(4, "big") + t
+
 ID = "C35"
 ENGINE = "net"
 LEVEL = "exploration"
@@ -44,12 +56,20 @@ COMPONENTS = {
              "server factory (host keys only)", "verifyHostKey (accepts; optionally asynchronously)",
              "randbytes.secureRandom (tape-driven)"],
 }
-RULE = ("run = one cipher x MAC x compression choice, 0..3 banner lines before the server's version string, real KEX, 1..8 service payloads "
-        "(0 B..40 KiB) in both directions, tape-chosen segmentation of both streams; tamper family: one byte of one post-NEWKEYS packet altered; "
+RULE = ("run = one cipher x MAC x compression choice, 0..3 banner lines before the server's version string (plain text, text mentioning the "
+        "version marker 'SSH-' mid-line, or a near-miss line start), default or tape-built version strings on both sides, 0..3 cleartext "
+        "IGNORE/DEBUG messages with line-like content sent during the initial key exchange, real KEX, 1..8 service payloads "
+        "(0 B..40 KiB) in both directions, tape-chosen segmentation of both streams (the delivery completing the server's version line may "
+        "carry following packet bytes); tamper family: one byte of one post-NEWKEYS packet altered; "
         "non-trivial = key exchange completed, at least one payload was dispatched, the wire was cut at least once and (clean family or the tamper was applied)")
 ASSUMPTIONS = [
-    "only the server sends identification lines before its version string (RFC 4253 4.2); banner lines do not contain 'SSH-'",
-    "payload message numbers are >= 50 (service range); transport-level noise (IGNORE) is only sent outside key exchange",
+    "only the server sends identification lines before its version string (RFC 4253 4.2); banner lines never START with 'SSH-' "
+    "(they may contain it elsewhere), end in CR LF and contain no other CR/LF",
+    "everything a side sends before the peer's version string is complete stays below the transport's 4 KiB identification limit",
+    "payload message numbers are >= 50 (service range); transport-level noise is IGNORE/DEBUG only: cleartext during the initial key "
+    "exchange (at most 3 short messages), encrypted IGNORE afterwards",
+    "version strings are 'SSH-2.0-' (server also 'SSH-1.99-') + printable software version without '-'/space + optional comment; "
+    "they are not checked against RFC 4253's 255-byte limit (all are shorter)",
     "a transport that called loseConnection() is not fed further input (what a real TCP transport does: stopReading)",
     "in the tamper family 'disconnect' is demanded once the receiver got at least 1 MiB + the packet (a length field altered upwards "
     "makes any implementation wait for that many bytes)",
@@ -63,6 +83,14 @@ MACS = list(transport.SSHTransportBase.supportedMACs)
 COMPRESSIONS = list(transport.SSHTransportBase.supportedCompressions)
 MAC_SIZE = {b"hmac-sha2-512": 64, b"hmac-sha2-384": 48, b"hmac-sha2-256": 32, b"hmac-sha1": 20, b"hmac-md5": 16}
 BANNER_ALPHABET = b"abcdefghijklmnopqrstuvwxyz 0123456789.,:!"
+MARKER = b"SSH-"
+# text that looks like (part of) a version line; legal anywhere in a banner line except at its start
+MARKER_TOKENS = (b"SSH-", b"SSH-2.0-", b"SSH-2.0-OpenSSH_9.6", b"SSH-1.99-", b"SSH-2", b"-SSH-")
+# legal line starts that are one character away from the marker
+NEAR_MISS_STARTS = (b"SSH", b"SSH_2.0", b"ssh-", b"SSH -", b"SH-", b"\tSSH-")
+SOFTWARE_ALPHABET = b"abcdefghijklmnopqrstuvwxyzABCDEFGHIJKLMNOPQRSTUVWXYZ0123456789._+"
+COMMENT_TOKENS = (b"x", b" ", b"-", b"SSH-", b"SSH-2.0-", b"2.0", b"Twisted")
+NOISE_TOKENS = (b"x", b"\n", b"\r\n", b"SSH-", b"SSH-2.0-", b"\r", b" ", b"-", b"SSH-2.0-noise\n", b"\nSSH-2.0-noise\r\n")
 
 FILLER = random.Random(35).randbytes(60000)     # fixed, incompressible keep-talking traffic for the tamper family
 
@@ -163,9 +191,16 @@ def run(sim):
     seg = sim.draw_choice(["mixed", "whole", "tiny", "big"], "segmentation")
     nsend = sim.draw_int(1, 8, "nsend")
     big_ok = sim.draw_bool(0.25, "big_payloads")
+    banner_style = sim.draw_weighted([("plain", 5), ("mentions-marker", 3), ("near-miss-start", 1)], "banner_style")
+    own_versions = sim.draw_bool(0.4, "own_version_strings")
+    nnoise = sim.draw_weighted([(0, 5), (1, 3), (2, 2), (3, 1)], "early_noise")
+    # the two knobs below keep most runs away from the preconditions of the version-line findings (see ident_verdict)
+    allow_marker_split = sim.draw_bool(0.1, "allow_marker_split") and not ALWAYS_AVOID
+    allow_marker_line_noise = sim.draw_bool(0.1, "allow_marker_line_noise") and not ALWAYS_AVOID
     sim.config = {"cipher": cipher.decode(), "mac": mac.decode(), "compression": comp.decode(), "family": family, "banner_lines": nbanner,
                   "avoid_banner_split": avoid_banner_split, "async_verify": h.async_verify, "early_send": early_send,
-                  "segmentation": seg, "nsend": nsend}
+                  "segmentation": seg, "nsend": nsend, "banner_style": banner_style, "own_version_strings": own_versions,
+                  "early_noise": nnoise, "allow_marker_split": allow_marker_split, "allow_marker_line_noise": allow_marker_line_noise}
     amounts = {"mixed": (None, 1000, 64, 17, 8, 5, 3, 2, 1), "whole": (None,), "tiny": (8, 5, 3, 2, 1, 17), "big": (None, 1000, 300, 64)}[seg]
 
     client, server = Client(h), Server(h)
@@ -187,9 +222,33 @@ def run(sim):
     # identification lines the server sends before its version string (RFC 4253 section 4.2)
     banner = b""
     line_ends = set()
+    marker_in_banner = False
     for _ in range(nbanner):
-        banner += sim.draw_bytes(sim.draw_int(0, 30, "bannerlen"), BANNER_ALPHABET) + b"\r\n"
+        line = sim.draw_bytes(sim.draw_int(0, 30, "bannerlen"), BANNER_ALPHABET)
+        kind = "plain" if banner_style == "plain" else sim.draw_choice([banner_style, "plain"], "linekind")
+        if kind == "mentions-marker":
+            # anywhere but at the start of the line: that is the only place RFC 4253 4.2 reserves
+            at = sim.draw_int(1, max(1, len(line)), "at")
+            line = (line[:at] or b" ") + sim.draw_choice(MARKER_TOKENS, "token") + line[at:]
+            sim.probe("banner_line_mentions_version_marker")
+        elif kind == "near-miss-start":
+            line = sim.draw_choice(NEAR_MISS_STARTS, "start") + line
+            sim.probe("banner_line_near_miss_start")
+        assert not line.startswith(MARKER) and b"\n" not in line and b"\r" not in line
+        marker_in_banner = marker_in_banner or MARKER in line
+        banner += line + b"\r\n"
         line_ends.add(len(banner))
+    if own_versions:
+        for who, p in (("server", server), ("client", client)):
+            if sim.draw_bool(0.7, "own"):
+                v = b"SSH-" + (b"1.99" if who == "server" and sim.draw_bool(0.3, "1.99") else b"2.0") + b"-"
+                v += sim.draw_bytes(sim.draw_int(1, 12, "swlen"), SOFTWARE_ALPHABET)
+                comment = b"".join(sim.draw_choice(COMMENT_TOKENS, "ctok") for _ in range(sim.draw_int(0, 5, "ncomment"))).strip()
+                if comment:
+                    v += b" " + comment
+                p.ourVersionString = v
+                sim.probe("own_version_string")
+                sim.event(who, "version-string", len(v), "marker-in-comment" if MARKER in v[4:] else "-")
     old_random = randbytes.secureRandom
     randbytes.secureRandom = lambda n, fallback=False: sim.draw_blob(n)
     try:
@@ -200,6 +259,74 @@ def run(sim):
         for k in ("C", "S"):
             proto[k].service = svc[k]
             svc[k].transport = proto[k]
+
+        # cleartext transport-level messages behind the KEXINIT (RFC 4253 7.1 allows types 1..19 during key exchange); their content is
+        # line-like text, i.e. what the receiver's identification parser must not look at once the version line has been found
+        for _ in range(nnoise):
+            s = sim.draw_choice(["C", "S"], "noise_sender")
+            text = b"".join(sim.draw_choice(NOISE_TOKENS, "ntok") for _ in range(sim.draw_int(0, 6, "nntok")))
+            if not allow_marker_line_noise and b"\n" + MARKER in NS(text):
+                # (the length prefix counts: a 10-byte string is preceded by the byte 0x0a)
+                text = text.replace(MARKER, b"SSH+")
+                sim.probe("noise_marker_line_avoided")
+            as_debug = sim.draw_bool(0.3, "debug")
+            sim.event("client" if s == "C" else "server", "early-noise", "DEBUG" if as_debug else "IGNORE", len(text),
+                      "marker-line" if b"\n" + MARKER in NS(text) else "-")
+            sim.probe("cleartext_noise_during_initial_kex")
+            with sim.guard("sendPacket-raised", s + "-early-noise"):
+                if as_debug:
+                    proto[s].sendDebug(text, sim.draw_bool(0.5, "display"))
+                else:
+                    proto[s].sendIgnore(text)
+
+        # ------------------------------------------------------------ identification verdict (after every delivery, both directions)
+        ident_start = {"A": len(banner), "B": 0}                                   # offset of the version line in the stream towards that side
+        ident_end = {"A": len(banner) + len(server.ourVersionString) + 2, "B": len(client.ourVersionString) + 2}
+        peer_version = {"A": server.ourVersionString, "B": client.ourVersionString}
+        circumstance = {}
+
+        def deliver(name, amount, label):
+            before = len(link.delivered[name])
+            with sim.guard("transport-raised", side_of[name] + "-" + label):
+                link.do("deliver", name, amount)
+            if before < ident_end[name]:
+                ident_verdict(name, len(link.delivered[name]))
+
+        def ident_verdict(name, got):
+            """The version line is recognised exactly when it is complete, it is the line the peer sent, and nothing of the identification
+            makes the receiver hang up.  The witness names the circumstance, read off the wire only."""
+            p, t = proto[side_of[name]], tr[side_of[name]]
+            who = "client" if name == "A" else "server"
+            complete = got >= ident_end[name]
+            circ = None
+            if not complete and got in line_ends and name == "A":
+                circ = "banner-line-end-at-segment-boundary"
+                sim.probe("delivery_ends_at_banner_line_end")
+            elif not complete and name == "A" and marker_in_banner and got >= ident_start[name] + len(MARKER):
+                circ = "version-marker-inside-banner-line+version-line-split"
+                sim.probe("version_line_split_behind_marker_banner")
+            elif complete and b"\n" + MARKER in bytes(link.delivered[name][ident_end[name] - 1:got]):
+                circ = "version-marker-line-in-packet-data-behind-version-line"
+                sim.probe("marker_line_in_version_delivery")
+            # while the version line is incomplete the last special circumstance met by this receiver names its later verdicts too
+            # (the damage may show one delivery later)
+            if circ is not None:
+                circumstance[name] = circ
+            elif not complete:
+                circ = circumstance.get(name)
+            if circ is None:
+                circ = who + "-after-ident" if complete else "other"
+            if complete and got > ident_end[name]:
+                sim.probe("version_delivery_carries_packet_data")
+            sim.check("version-exchange", bool(p.gotVersion) == complete, circ,
+                      lambda: "%s: %d of %d identification bytes delivered (version line %s) but gotVersion=%s"
+                      % (who, min(got, ident_end[name]), ident_end[name], "complete" if complete else "incomplete", p.gotVersion))
+            if complete:
+                sim.check("version-exchange", p.otherVersionString == peer_version[name], circ,
+                          lambda: "%s took %r for the peer's version string; the peer sent %r" % (who, p.otherVersionString, peer_version[name]))
+            sim.check("version-exchange", not t.disconnecting or tam["done"], circ,
+                      lambda: "%s disconnected %s the peer's version string was complete: %d identification byte(s), %d delivered so far"
+                      % (who, "in the delivery in which" if complete else "before", ident_end[name], got))
 
         # ------------------------------------------------------------ tampering
         tam = {"want": family == "tamper", "done": False}
@@ -262,8 +389,11 @@ def run(sim):
                 amount = sim.draw_choice(amounts, "amount")
                 if amount is not None:
                     sim.fault("segmentation")
-            with sim.guard("transport-raised", side_of[name] + "-" + kind):
-                link.do(kind, name, amount)
+            if kind == "deliver":
+                deliver(name, amount, kind)
+            else:
+                with sim.guard("transport-raised", side_of[name] + "-" + kind):
+                    link.do(kind, name, amount)
             maybe_tamper()
             return True
 
@@ -272,29 +402,35 @@ def run(sim):
         link.do("xmit", "B")
         maybe_tamper()
         pieces = net.cut(sim, bytes(link.flight["A"][:server_ident]), boundaries=sorted(line_ends) + [server_ident])
+        def keep_away(end):
+            # the preconditions of the identification findings: a delivery ending exactly at the end of a banner line (fixed in /repo), or
+            # inside the version line (marker already there) behind a banner line that mentions the marker
+            if avoid_banner_split and end in line_ends:
+                sim.probe("banner_line_end_avoided")
+                return True
+            if marker_in_banner and not allow_marker_split and len(banner) + len(MARKER) <= end < server_ident:
+                sim.probe("marker_version_line_split_avoided")
+                return True
+            return False
+
+        # the delivery that completes the version line may carry (some of) the packets behind it
+        tail = sim.draw_choice([0, None, 1, 5, 40, 300], "ident_tail")
         cum = 0
-        hit_line_end = False
         k = 0
         while k < len(pieces):
             piece = pieces[k]
             k += 1
-            if avoid_banner_split and (cum + len(piece)) in line_ends and k < len(pieces):
-                # keep away from the precondition of the banner finding: no delivery ends exactly at the end of a banner line
+            if k < len(pieces) and keep_away(cum + len(piece)):
                 pieces[k] = piece + pieces[k]
-                sim.probe("banner_line_end_avoided")
                 continue
             cum += len(piece)
-            if cum in line_ends:
-                hit_line_end = True
-                sim.probe("delivery_ends_at_banner_line_end")
-            sim.event("client", "ident-delivery", len(piece), "line-end" if cum in line_ends else "-")
-            with sim.guard("transport-raised", "C-ident"):
-                link.do("deliver", "A", len(piece))
+            amount = len(piece)
+            if k == len(pieces) and tail != 0:
+                amount = None if tail is None else amount + tail
+            sim.event("client", "ident-delivery", len(piece), "line-end" if cum in line_ends else "-",
+                      "+tail" if amount != len(piece) else "-")
+            deliver("A", amount, "ident")
             maybe_tamper()
-            if link.a.disconnecting and not client.gotVersion:
-                sim.fail("version-exchange", "banner-line-end-at-segment-boundary" if hit_line_end else "other",
-                         "client disconnected before the server's version string was complete: %d banner line(s), %d bytes delivered so far, "
-                         "last delivery ended %s a banner line" % (nbanner, cum, "exactly at the end of" if cum in line_ends else "inside/after"))
             for _ in range(sim.draw_int(0, 2, "interleave")):
                 net_step(only=lambda e: e != ("deliver", "A"))
         sim.check("version-exchange", client.gotVersion and not link.a.disconnecting, "client-after-ident",
